@@ -6,6 +6,7 @@ CONSTANTS Mode = "chain"
           Wait = 1
           ForkAt = 203
           DepositAt = 203
+          LeadZ = 1
           Heights = {199, 200, 202, 203, 205, 206, 207}
           EmitOn = TRUE
 INVARIANT PropC23
